@@ -33,17 +33,17 @@ void Resource::lock(OpType opType) {
 
     if (m_queue.empty() && (m_activeOp == OpType::None || (m_activeOp == opType && opType == OpType::Read))) {
         m_activeOp = opType;
+        ++m_activeCount;
     } else {
         auto id = m_idCounter++;
 
         enqueue(opType);
 
+        // queued requests are counted as active by select() at the moment they are admitted
         m_cv.wait(lock, [id, this] {
             return id < m_upperUnlockBound;
         });
     }
-
-    ++m_activeCount;
 }
 
 void Resource::unlock(OpType opType) {
@@ -88,6 +88,9 @@ void Resource::select() {
     m_queue.pop_front();
 
     m_activeOp = op.type;
+    // every request of the admitted batch holds the resource from now on, even if its thread
+    // has not woken up yet: the resource must not be handed on before all of them have unlocked
+    m_activeCount = static_cast<size_t>(op.upperBound - m_upperUnlockBound);
     m_upperUnlockBound = op.upperBound;
 }
 } // tulz::rwp
